@@ -212,6 +212,7 @@ class VirtRig:
         self.progress = progress     # observe the progress bars (a recording stand-in for labtech.lab.tqdm)
         self.ctx_fail = False
         self.deadlock = False
+        self.setup_failed = False
         self.tnames = None
         self.dep_order = None
         self.int_lines = int_lines   # line-boundary injection: list of global line-event indices
@@ -504,7 +505,18 @@ class VirtRig:
         storage = self.storage if self.storage is not None else (D.MemStorage() if cfg['storage'] else None)
         self.muted = True
         if cfg['storage']:
-            D.prepare_storage(cfg, storage, self.shape_seed)
+            try:
+                D.prepare_storage(cfg, storage, self.shape_seed)
+            except BaseException as ex:   # noqa
+                # the pre-state is produced by a plain serial run_tasks over succeeding tasks; if that fails, this is the
+                # execution to report (nothing can fail, yet run_tasks raised)
+                name, cause = D.exc_info(ex)
+                self.trace = [{'e': 'call'}, {'e': 'outcome', 'kind': 'raise', 'exc': name, 'cause': cause, 'keys': [], 'vals': [],
+                                              'msg': 'while building the cache pre-state: ' + str(ex)[:160]},
+                              {'e': 'obs_cache', 'cached': [], 'vals': []}, {'e': 'obs_marks', 'insts': []},
+                              {'e': 'obs_logs', 'delivered': []}]
+                self.setup_failed = True
+                return self.trace
         built = D.Built(cfg, self.shape_seed, beh=self.beh)
         built.ctx_fail = self.ctx_fail
         req = built.requested()
